@@ -45,6 +45,17 @@ def kind(s):
     return 'basic'
 
 
+def with_random_priority(rng, t):
+    """a faulty transition may carry any LEGAL priority (and guard/action): the fault must still be reported"""
+    if rng.random() < 0.6:
+        t['priority'] = rng.choice([3, -2, 7, 0, 1, -1, 'high', 'low', 100, -50])
+    if rng.random() < 0.3:
+        t['guard'] = 'x > 0'
+    if rng.random() < 0.3:
+        t['action'] = 'x = 1'
+    return t
+
+
 # each fault returns True when it could be injected; the document then breaks a listed rule
 def f_duplicate_name(rng, d):
     sts = all_states(d)
@@ -66,7 +77,7 @@ def f_transition_on_final_or_history(rng, d):
         p['states'].append(new)
         sts = [new]
     s = rng.choice(sts)
-    s['transitions'] = [{'event': 'e0'}]
+    s['transitions'] = [with_random_priority(rng, {'event': 'e0'})]
     return True
 
 
@@ -75,8 +86,8 @@ def f_unknown_target(rng, d):
     if not sts:
         return False
     s = rng.choice(sts)
-    s.setdefault('transitions', []).append({'target': rng.choice(['nowhere', ' ' + s['name'], s['name'] + ' ']),
-                                            'event': 'e1'})
+    s.setdefault('transitions', []).append(with_random_priority(rng, {
+        'target': rng.choice(['nowhere', ' ' + s['name'], s['name'] + ' ', '', ' ']), 'event': 'e1'}))
     return True
 
 
